@@ -20,7 +20,9 @@ RULE = ('histories of dispatcher operations, every one run on the real code and 
         'plugin that has it (or the ambiguity error naming exactly the loaded holders), never by an unloaded one.  The final-state resolution '
         '(called plugin / ambiguous set / invalid, under generated defaultPlugins + importantPlugins settings) and the per-Irc views are also '
         'compared with the extracted model.  non-trivial = history with at least 2 operations')
-TRUSTED = ['command resolution is modelled for plugins without sub-command groups and without disabled commands; callbacks.canonicalName is a Section '
+TRUSTED = ['liveness: the model logs die() calls (s_dead); the synthetic plugins hold a handle that die() releases and that their commands need, '
+           'so a registered-but-torn-down instance is observable (direct oracle after every operation; die() sequence compared with the model at the end)',
+           'command resolution is modelled for plugins without sub-command groups and without disabled commands; callbacks.canonicalName is a Section '
            'variable (extracted instance: drop TAB - _ SPACE and ASCII-lower; generators use alphanumeric names); `L >= maxL` on two prefixes of '
            'the token list is modelled as comparison of lengths; tokenising and nested commands are C13/C14',
            'T20 also pins (fail-closed) that no write to self.callbacks in class Irc rebinds the attribute outside __init__ and that Irc.__init__ '
@@ -35,7 +37,9 @@ TRUSTED = ['command resolution is modelled for plugins without sub-command group
            'sys.modules is not modelled: since fix C20.F24 Owner.reload reads it with .get() and only to find an optional module-level reload() hook',
            'T20: shapes of Owner.callPrecedence, Misc.callPrecedence, IrcCallback.callPrecedence asserts + firewall default, the strEqual guards and the '
            'except ImportError clause of Owner.reload are re-read from the source on every run (fail-closed)']
-ASSUMPTIONS = ['world.testing/log.testing off (log.firewall active); Python asserts enabled (no -O)',
+ASSUMPTIONS = ['a plugin whose die() raises: the exception is swallowed by log.firewall (die is in IrcCallback.__firewalled__ and, since the '
+               'MetaFirewall repair, wrapped for every plugin class: pinned in T20); the instance counts as torn down',
+               'world.testing/log.testing off (log.firewall active); Python asserts enabled (no -O)',
                'callback objects in the list are pairwise distinct objects (hypothesis NoDup ids of the theorems)',
                'single-threaded use of Irc.addCallback (the source says "This *isn\'t* threadsafe!")']
 LEVEL_TEXT = ('Coq theorems over an executable Gallina model of Irc.addCallback/_sortCallbacks/getCallback/removeCallback, the three callPrecedence shapes and '
@@ -139,12 +143,21 @@ class %(n)s(callbacks.Plugin):
         super().__init__(irc)
         if _ctl().get('init'):
             raise RuntimeError('boom in __init__')
+        # the plugin "holds something" (a handle) that its commands need and that die() releases
+        import builtins
+        self._c20 = builtins.__dict__.setdefault('_c20_probe', {'serial': 0, 'dies': []})
+        self._c20['serial'] += 1
+        self._serial = self._c20['serial']
+        self._handle = ['open']
     def die(self):
+        self._c20['dies'].append(('%(n)s', self._serial))
+        self._handle = None
         if _ctl().get('die'):
             raise RuntimeError('boom in die')
         super().die()
 def _mk(cmd):
     def f(self, irc, msg, args):
+        self._handle[0]                     # a torn-down instance cannot answer
         irc.reply('pong-%(n)s-' + cmd)
     f.__name__ = cmd
     return f
@@ -258,8 +271,14 @@ def drop_late(e):
             e['world'].ircs.remove(x)
 
 
+def die_log():
+    import builtins
+    return builtins.__dict__.setdefault('_c20_probe', {'serial': 0, 'dies': []})['dies']
+
+
 def reset(e):
     drop_late(e)
+    del die_log()[:]
     shared = e['irclib']._callbacks
     for x in e['ircs']:
         x.callbacks = shared          # (a mutated tree may have rebound it)
@@ -458,6 +477,19 @@ def check_commands(e, inp, want):
     return bad, obs
 
 
+def check_alive(e):
+    """what is registered must be working: no registered synthetic plugin instance has been torn down by die(), and no
+    instance is torn down twice"""
+    for c in e['ircs'][0].callbacks:
+        if hasattr(c, '_handle') and c._handle is None:
+            return 'plugin %s is registered but its instance has been torn down by die() (it cannot answer any more)' % c.name()
+    log = die_log()
+    if len(set(log)) != len(log):
+        twice = sorted({x for x in log if log.count(x) > 1})
+        return 'die() was called more than once on the same instance: %r' % (twice,)
+    return None
+
+
 def networks_agree(e, what):
     """every Irc object of the bot must see the same dispatcher list (it is one shared list object)"""
     ref = names(e, 0)
@@ -473,7 +505,7 @@ def oracle_run(e, inp, late=True):
     e['last_obs'] = (cfg, observations), e['last_views'] = callback names per Irc object (a late-created one included)"""
     reset(e)
     base_ctl(e, inp['world'])
-    e['last_obs'] = e['last_views'] = None
+    e['last_obs'] = e['last_views'] = e['last_dies'] = None
     full_cfg = apply_cfg(e, inp)
     trace, want = [], set()
     live = False
@@ -487,9 +519,11 @@ def oracle_run(e, inp, late=True):
         want = spec_update(want, inp['world'], op, r)
         if r[0] == '?':
             return trace, 'unexpected reply to %r: %r' % (op, r[1])
-        bad = check_state(e, want) or networks_agree(e, 'after %r issued on network %s' % (op, e['ircs'][h].network))
+        bad = check_state(e, want) or check_alive(e) or networks_agree(e, 'after %r issued on network %s' % (op, e['ircs'][h].network))
         if bad:
             return trace, ('after %r: %s' % (op, bad)) if not bad.startswith('after') else bad
+    if len(trace) == len(inp['ops']):
+        e['last_dies'] = [n for n, _ in die_log()]
     if late and len(trace) == len(inp['ops']):
         e['ircs'].append(e['mk_irc']('late'))       # an Irc created after the history (a later `connect`)
         e['last_views'] = [names(e, h) for h in range(len(e['ircs']))]
@@ -562,8 +596,9 @@ def has_cycle(inp):
 
 
 def has_failing_reload(inp):
-    """known finding C20.F21 (the part left): a reload whose import succeeds and whose new constructor or old die() raises"""
-    return any(op[0] == 'reload' and op[2] == 0 and (op[3] or op[4]) for op in inp['ops'])
+    """known finding C20.F21 (the part left): a reload whose import succeeds and whose new constructor raises
+    (a raising die() is swallowed by log.firewall since the MetaFirewall fix and is no failure any more)"""
+    return any(op[0] == 'reload' and op[2] == 0 and op[3] for op in inp['ops'])
 
 
 def has_reload_after_failed_import(inp):
@@ -771,6 +806,11 @@ def probe_bundled(e):
 
 
 CORPUS = [
+    # a reload whose import fails must put the old instance back UNTOUCHED (a seeded change calling die() before the import was only
+    # weakly caught: the plugins held nothing that die() released, and nobody looked whether what is registered still works)
+    {'world': [['Owner', 1, [], [], []], ['Alpha', 0, [], [], ['cmdalpha']], ['Beta', 0, [], [], ['cmdbeta']]],
+     'ops': [['boot', 'Owner'], ['load', 'Alpha', 0, 0], ['load', 'Beta', 0, 0], ['reload', 'Alpha', 1, 0, 0], ['reload', 'Alpha', 2, 0, 0],
+             ['reload', 'Alpha', 0, 0, 0], ['reload', 'beta', 0, 0, 1], ['unload', 'Beta', 1]]},
     # was C20.F25: names with regular-expression metacharacters matched other plugins (`load Alph.` registered Alpha, `load .*` the first
     # directory entry, `load (` died with re.error); fixed: re.escape -> "No plugin named ..."
     {'world': [['Owner', 1, [], [], []], ['Alpha', 0, [], [], ['cmdalpha']], ['Beta', 0, [], [], ['cmdbeta']]],
@@ -848,12 +888,13 @@ def run(ctx):
         cases.append((gen_syn(rng), 'syn'))
     for _ in range(ctx.n(220)):
         cases.append((gen_live(rng, bundled_ok), 'live'))
-    traces, fails, observed, views = [], [], [], []
+    traces, fails, observed, views, dies = [], [], [], [], []
     for i, (inp, kind) in enumerate(cases):
         # an Irc object created after the history: always for live histories, for every third synthetic one (cost)
         tr, bad = oracle_run(e, inp, late=(kind != 'syn' or i % 3 == 0))
         observed.append(e['last_obs'])
         views.append(e['last_views'])
+        dies.append(e['last_dies'])
         sub = kind
         if kind != 'corpus':
             sub += ('-selfref' if has_self_reference(inp) else '-cyclic' if has_cycle(inp) else
@@ -889,6 +930,15 @@ def run(ctx):
     for (inp, tr, vw), o in zip(vq, outs):
         if o is not None and [wire.ls(x) for x in o] != vw:
             ctx.disagree(inp, [wire.ls(x) for x in o], vw, 'callback lists seen by the Irc objects at the end of the history')
+    # the die() log of the synthetic plugins over the whole history: model vs bot
+    dq = [(inp, tr, dl) for (inp, kind), tr, dl in zip(cases, traces, dies) if dl is not None and inp['world']]
+    outs = ctx.model([[3, wire_case(inp, tr)[1]] for inp, tr, dl in dq])
+    for (inp, tr, dl), o in zip(dq, outs):
+        if o is None:
+            continue
+        md = [n for n in (wire.s(x) for x in o) if n in SYN_PLUGINS]
+        if md != dl:
+            ctx.disagree(inp, md, dl, 'sequence of die() calls on the synthetic plugins')
     apply_cfg(e, {})
     reset(e)
 
